@@ -16,6 +16,7 @@ type pauseManager struct {
 	subscribers sync.Map // Map of *ControlChans to struct{}
 	isPaused    atomic.Bool
 	message     string
+	resumeMu    sync.Mutex // Serializes Resume calls
 }
 
 var manager = &pauseManager{}
@@ -70,6 +71,15 @@ func Pause(message ...string) {
 
 // Resume reads from each subscriber's ResumeCh to unblock them.
 func Resume() {
+	// Subscribers only send on their ResumeCh after a pause: a Resume without a
+	// pause (or two concurrent ones, which would steal each other's
+	// acknowledgements) would wait forever.
+	manager.resumeMu.Lock()
+	defer manager.resumeMu.Unlock()
+	if !manager.isPaused.Load() {
+		return
+	}
+
 	var wg sync.WaitGroup
 	manager.subscribers.Range(func(key, _ interface{}) bool {
 		chans := key.(*ControlChans)
